@@ -77,10 +77,10 @@ func verifC07Chunks(rs string, class string) {
 	verifAssert(verifSame(t1, t2), class+": RT depends on how the input is chunked")
 }
 
-func VerifC07ScanNewline() { verifC07Chunks("\n", "RS=newline") }
-func VerifC07ScanBlank()   { verifC07Chunks("", "RS=\"\"") }
-func VerifC07ScanRegexPlus() { verifC07Chunks("X+", "RS=/X+/") }
-func VerifC07ScanRegexAlt()  { verifC07Chunks("b|abc", "RS=/b|abc/") }
+func VerifC07ScanNewline()      { verifC07Chunks("\n", "RS=newline") }
+func VerifC07ScanBlank()        { verifC07Chunks("", "RS=\"\"") }
+func VerifC07ScanRegexPlus()    { verifC07Chunks("X+", "RS=/X+/") }
+func VerifC07ScanRegexAlt()     { verifC07Chunks("b|abc", "RS=/b|abc/") }
 func VerifC07ScanRegexAltPlus() { verifC07Chunks("a|b+", "RS=/a|b+/") }
 
 func VerifC07ScanByte() {
@@ -180,4 +180,21 @@ func VerifC07LosslessBlank() {
 		}
 	}
 	verifAssert(verifSame(recs, want), "RS=\"\": records are not the blank-line separated paragraphs")
+}
+
+// a longer alternative that needs two more bytes than the shorter one it extends: the match "ab" found in a
+// buffer that ends one byte later ("abc") is accepted although "abcd" may follow
+func VerifC07ScanRegexAltGap() {
+	n := verifIntRange(0, verifBound(5, 6))
+	data := verifBytes(n)
+	k1 := verifIntRange(0, n)
+	r1, t1 := verifScanAll(verifInterpRS("ab|abcd"), data, n, n)
+	r2, t2 := verifScanAll(verifInterpRS("ab|abcd"), data, k1, n)
+	has := false
+	for i := 0; i+4 <= n; i++ {
+		has = has || (data[i] == 'a' && data[i+1] == 'b' && data[i+2] == 'c' && data[i+3] == 'd')
+	}
+	verifKnown("C07-regex-rs-needs-lookahead", has)
+	verifReach("compared")
+	verifAssert(verifSame(r1, r2) && verifSame(t1, t2), "RS=/ab|abcd/: records or RT depend on how the input is chunked")
 }
